@@ -13,8 +13,8 @@ from props import state_gen as sg
 
 PROP = "C01"
 PROPS_FILE = "props/C01.v"
-GEN: list[str] = []
-CORRESPONDENCES = ["prepare_write-pieces~model", "restore(take(x))-bit-exact:sampled-product"]
+GEN = ["gen_dispatch", "gen_chunk"]
+CORRESPONDENCES = ["prepare_write-pieces~model", "restore(take(x))-bit-exact:sampled-product", "routing:prepare_write~generated", "routing:prepare_read~generated"]
 RULE = ("the product structure x leaf kinds x 12 dtypes x shapes (scalar, zero-length, odd counts) x layouts (contiguous, "
         "transposed, strided, offset, broadcast) x knobs (chunk bytes {1,7,16,64,default}, slab threshold {1,9,40,default}, "
         "batching on/off, budget {1,50,large}, io concurrency {1,2,16}) x restore targets (in-place, None, wrong shape) x "
@@ -174,10 +174,121 @@ def check_pieces(ctx, res):
     res.traces_validated += len(coq)
 
 
+ECLASS_IDS = {"Entry": 0, "TensorEntry": 1, "ShardedTensorEntry": 2, "ChunkedTensorEntry": 3, "DTensorEntry": 4, "ObjectEntry": 5,
+              "ListEntry": 6, "DictEntry": 7, "OrderedDictEntry": 8, "PrimitiveEntry": 9}
+RKIND_IDS = {"PrimitivePreparer": 0, "ShardedTensorIOPreparer": 1, "DTensorIOPreparer": 2, "ChunkedTensorIOPreparer": 3,
+             "TensorIOPreparer": 4, "ObjectIOPreparer": 5}
+ROUTE_IMPORTS = "From TS Require Import model.DispatchGenObs.\n"
+
+
+def check_routing(ctx, res):
+    """io_preparer.prepare_write / prepare_read routing (real) vs the terms generated from io_preparer.py"""
+    import torch
+    from torch.distributed._shard.sharded_tensor import ShardedTensor
+    from torchsnapshot import io_preparer as iop
+    from torchsnapshot import manifest as mf
+    from torchsnapshot.knobs import get_max_chunk_size_bytes
+    from props.C08 import C08Group, C08_make_sharded
+    try:
+        from torch.distributed._tensor import DTensor
+    except Exception:  # noqa
+        DTensor = None
+    rng = ctx.rng
+    objs = [("int", 3), ("str", "x"), ("bool", True), ("float", 1.5), ("bytes", b"ab"), ("none", None), ("tuple", (1, 2)),
+            ("list-obj", [1, 2]), ("complex", 1j), ("empty-tensor", torch.zeros(0))]
+    for n in (1, 2, 3, 4, 5, 8):
+        objs.append((f"tensor-int8-{n}", torch.arange(n, dtype=torch.int8)))
+        objs.append((f"tensor-f32-{n}", torch.arange(n, dtype=torch.float32)))
+    wcases, wmeta, entries = [], [], []
+    with C08Group(ctx):
+        G = torch.arange(12, dtype=torch.float32).reshape(4, 3)
+        try:
+            objs.append(("sharded", C08_make_sharded([([0, 0], [2, 3]), ([2, 0], [2, 3])], [4, 3], [G[0:2].clone(), G[2:4].clone()])))
+        except Exception as e:  # noqa
+            res.notes.append(f"routing: no ShardedTensor ({type(e).__name__})")
+        if DTensor is not None:
+            try:
+                from torch.distributed._tensor import DeviceMesh, distribute_tensor, Replicate, Shard as DShard
+                mesh = DeviceMesh("cpu", [0])
+                objs.append(("dtensor-sharded", distribute_tensor(G.clone(), mesh, [DShard(0)])))
+                objs.append(("dtensor-replicated", distribute_tensor(G.clone(), mesh, [Replicate()])))
+            except Exception as e:  # noqa
+                res.notes.append(f"routing: no DTensor ({type(e).__name__}: {str(e)[:80]})")
+        for name, obj in objs:
+            for knob in ([None] if not isinstance(obj, torch.Tensor) else [None, 1, 4, 5, 16, 31, 32, 33]):
+                if knob is None:
+                    os.environ.pop(KNOB_ENV["chunk"], None)
+                else:
+                    os.environ[KNOB_ENV["chunk"]] = str(knob)
+                try:
+                    flags = (bool(iop.PrimitivePreparer.should_inline(obj)), isinstance(obj, ShardedTensor),
+                             DTensor is not None and isinstance(obj, DTensor), isinstance(obj, torch.Tensor))
+                    nbytes = obj.nelement() * obj.element_size() if (isinstance(obj, torch.Tensor) and not flags[1] and not flags[2]) else 0
+                    k = get_max_chunk_size_bytes()
+                    try:
+                        entry, _ = iop.prepare_write(obj, "p/q", rank=0, replicated=True)
+                    except Exception as e:  # noqa
+                        res.notes.append(f"routing: prepare_write({name}) raised {type(e).__name__}: {str(e)[:80]}")
+                        continue
+                finally:
+                    os.environ.pop(KNOB_ENV["chunk"], None)
+                cls = type(entry).__name__
+                sets = getattr(entry, "replicated", None) is True
+                res.case({"routing": "write", "obj": name, "knob": knob, "entry": cls}, nontrivial=True)
+                res.count("routing.write", cls)
+                wcases.append((f"({term(flags[0])}, {term(flags[1])}, {term(flags[2])}, {term(flags[3])}, {term(nbytes)}, {term(k)})",
+                               val([ECLASS_IDS.get(cls, -1), 1 if sets else 0])))
+                wmeta.append({"obj": name, "knob": knob, "entry": cls, "flags": flags, "nbytes": nbytes})
+                entries.append((name, entry))
+        # ---- read side: which preparer gets the entry, and is the buffer limit passed on
+        seen = {}
+        for name, entry in entries:
+            seen.setdefault(type(entry).__name__, entry)
+        seen.setdefault("ListEntry", mf.ListEntry())
+        seen.setdefault("DictEntry", mf.DictEntry(keys=[]))
+        seen.setdefault("OrderedDictEntry", mf.OrderedDictEntry(keys=[]))
+        seen.setdefault("Entry", mf.Entry(type="x"))
+        rcases, rmeta = [], []
+        names = ["PrimitivePreparer", "ShardedTensorIOPreparer", "DTensorIOPreparer", "ChunkedTensorIOPreparer", "TensorIOPreparer", "ObjectIOPreparer"]
+        for cls, entry in seen.items():
+            calls = []
+            saved = {}
+            for pn in names:
+                prep = getattr(iop, pn)
+                saved[pn] = prep.__dict__["prepare_read"]
+
+                def spy(*a, _pn=pn, **kw):
+                    calls.append((_pn, "buffer_size_limit_bytes" in kw and kw["buffer_size_limit_bytes"] == 77))
+                    return [], None
+                setattr(prep, "prepare_read", staticmethod(spy))
+            try:
+                try:
+                    iop.prepare_read(entry, None, buffer_size_limit_bytes=77)
+                    exp = [RKIND_IDS[calls[0][0]], 1 if calls[0][1] else 0] if len(calls) == 1 else [-1, len(calls)]
+                except Exception:  # noqa
+                    exp = []
+            finally:
+                for pn in names:
+                    setattr(getattr(iop, pn), "prepare_read", saved[pn])
+            res.case({"routing": "read", "entry": cls, "to": exp}, nontrivial=True)
+            res.count("routing.read", cls)
+            rcases.append((term(ECLASS_IDS[cls]), val(exp)))
+            rmeta.append({"entry": cls, "observed": exp})
+    for name, fn, cases, meta, ty in ((CORRESPONDENCES[2], "obs_write_route", wcases, wmeta, "bool * bool * bool * bool * Z * Z"),
+                                      (CORRESPONDENCES[3], "obs_read_route", rcases, rmeta, "Z")):
+        bad, errs = coqrun.run_cases("C01_" + fn, ROUTE_IMPORTS, fn, cases, shard=300, in_type=ty)
+        for e in errs:
+            res.mismatches.append(Mismatch(name, "coqc error", None, e))
+        for i in bad:
+            res.mismatches.append(Mismatch(name, meta[i], cases[i][1], None))
+        res.traces_validated += len(cases)
+
+
 def correspond(ctx: Ctx) -> Result:
     res = Result(rule=RULE)
     rng = ctx.rng
     check_pieces(ctx, res)
+    check_routing(ctx, res)
     # corpus: the cases that used to fail (fixed) must keep passing
     corpus = [
         ({"m": ("dict", [("bf", ("tensor", "bfloat16", [3], "contiguous", 1)), ("z", ("tensor", "float32", [0, 3], "contiguous", 2)),
